@@ -1761,3 +1761,54 @@ Proof.
     destruct (pick_read_scale_spec _ _ _ Htol Hk) as (P0 & K1 & K2 & K3).
     rewrite Hs in *. destruct (Qminq_spec sx sy) as (M1 & M2 & M3). tauto.
 Qed.
+
+(** ** the requested padding is honoured around every needed source pixel *)
+Lemma env_has_pad vals k j pad :
+  env_has vals 0 k -> (k - pad <= j <= k + pad)%Z -> env_has vals pad j.
+Proof.
+  unfold env_has. destruct vals as [|v vs]; [tauto|]. lia.
+Qed.
+
+Lemma sampled_padding c ss ds A F ttol stol padding align r :
+  reproject_linear c ss ds A F ttol stol padding align = Ok r ->
+  paste_ok r = false ->
+  (0 <= fst ss)%Z -> (0 <= snd ss)%Z -> (0 <= fst ds)%Z -> (0 <= snd ds)%Z ->
+  (0 <= pad_default padding)%Z -> align_ok (norm_align align) ->
+  inverse_of F A ->
+  forall dy dx, (0 <= dy < fst ds)%Z -> (0 <= dx < snd ds)%Z ->
+    let p := aff_apply A (pix_center dy dx) in
+    0 <= fst p -> fst p < inject_Z (snd ss) -> 0 <= snd p -> snd p < inject_Z (fst ss) ->
+    forall jy jx,
+      (Qfloor (snd p) - pad_default padding <= jy <= Qfloor (snd p) + pad_default padding)%Z ->
+      (Qfloor (fst p) - pad_default padding <= jx <= Qfloor (fst p) + pad_default padding)%Z ->
+      (0 <= jy < fst ss)%Z -> (0 <= jx < snd ss)%Z ->
+      in_roi (roi_src r) jy jx.
+Proof.
+  intros Hr Hpaste S1 S2 D1 D2 Hpad Hal Hinv dy dx Hdy Hdx p Px0 Px1 Py0 Py1 jy jx Jy Jx Ry Rx.
+  destruct (reproject_linear_cases _ _ _ _ _ _ _ _ _ _ Hr) as (sx & sy & _ & _ & _ & _ & [[_ Hroi] | [Hp _]]);
+    [|congruence].
+  destruct (inverse_rows F A Hinv) as [R1 R2].
+  assert (Cx0 : 0 < inject_Z dx + (1#2)).
+  { assert (0 <= inject_Z dx) by (change 0 with (inject_Z 0); rewrite <- Zle_Qle; lia). lra. }
+  assert (Cy0 : 0 < inject_Z dy + (1#2)).
+  { assert (0 <= inject_Z dy) by (change 0 with (inject_Z 0); rewrite <- Zle_Qle; lia). lra. }
+  assert (Cx1 : inject_Z dx + (1#2) < inject_Z (snd ds)).
+  { assert (inject_Z dx + 1 <= inject_Z (snd ds)).
+    { assert (E : inject_Z dx + 1 == inject_Z (dx + 1)) by (rewrite inject_Z_plus; reflexivity).
+      rewrite E, <- Zle_Qle. lia. }
+    lra. }
+  assert (Cy1 : inject_Z dy + (1#2) < inject_Z (fst ds)).
+  { assert (inject_Z dy + 1 <= inject_Z (fst ds)).
+    { assert (E : inject_Z dy + 1 == inject_Z (dy + 1)) by (rewrite inject_Z_plus; reflexivity).
+      rewrite E, <- Zle_Qle. lia. }
+    lra. }
+  destruct (linear_env_src A (fst ds) (snd ds) 0 _ _ (Z.le_refl 0) Cx0 Cx1 Cy0 Cy1 R1 R2) as [E1 E2].
+  fold (pix_center dy dx) in E1, E2. fold p in E1, E2.
+  pose proof (env_has_pad _ _ jx (pad_default padding) E1 Jx) as E1'.
+  pose proof (env_has_pad _ _ jy (pad_default padding) E2 Jy) as E2'.
+  pose proof (roi_from_points_env _ (fst ss) (snd ss) (pad_default padding) (norm_align align)
+                jy jx S1 S2 Hpad Hal E1' E2' Rx Ry) as Is.
+  unfold relative_rois in Hroi.
+  set (roi_s := roi_from_points _ (fst ss) (snd ss) (pad_default padding) (norm_align align)) in *.
+  destruct (roi_empty roi_s); injection Hroi as -> _; exact Is.
+Qed.
